@@ -30,6 +30,8 @@ M = [
     'LULaa', 'MTa:Ma', 'LNNa:La', 'NMNLa:La',
     # several possibility premises (world-count limits, serial dead ends)
     'e:LLa:Mb:Mc:Md', 'e:LLa:Mb:Mc:Md:Me', 'd:La:Mb:Mc', 'c:LMa:Mb', 'Mc:LLa:Mb',
+    # box-diamond patterns whose proofs run close to the projected world maximum
+    'Lc:LKMaLc', 'Mb:LMa:Ma:b', 'LLc:LKMaLc', 'Mb:LMa:b',
 ]
 
 Q = [
